@@ -1665,6 +1665,12 @@ func (dsc *dataStoreCommand) lmove(srcKeyName, destKeyName string, srcLeft, dest
 		return
 	}
 
+	// a rotation must not change the key's time to live (see below)
+	expiresAt := maxTime
+	if sk, exists := dsc.getKeyObjectUnlocked(srcKeyName); exists {
+		expiresAt = sk.expiresAt
+	}
+
 	// remove the item from the source list
 	var item *listItem
 	if srcLeft {
@@ -1677,9 +1683,13 @@ func (dsc *dataStoreCommand) lmove(srcKeyName, destKeyName string, srcLeft, dest
 	element := item.element
 
 	// the pop removes a key whose list became empty: when source and destination are the same key
-	// holding one element, the destination has to be looked up (and created) again
+	// holding one element, the destination has to be looked up (and created) again - it is still
+	// the same key to the client, so it keeps its time to live
 	if srcList.count == 0 && srcKeyName == destKeyName {
 		destList, _ = dsc.ensureListUnlocked(destKeyName)
+		if sk, exists := dsc.getKeyObjectUnlocked(destKeyName); exists {
+			sk.expiresAt = expiresAt
+		}
 	}
 
 	// place the item into the dest list
